@@ -8,6 +8,26 @@ CLAIMED = {
    technique="property-based testing: generated multi-file projects vs. an independent reference model of the README semantics (both directions), proptest-driven choice sequences, structural shrinking",
    text="Generated-input search: thousands of generated multi-directive, multi-file projects per run are built with the real library and compared byte for byte (outputs, temp files, nothing else created, verdict) with a reference model written from the README; failures shrink to a few-line project. This explores the combinatorial interaction space the fixtures sample once each; it does not establish absence of violations.",
    note="Trusts the reference model (harness/src/model, anchored by the repository's golden fixtures and by mutation runs), dash as /bin/sh, and the §4.3 domain (out-of-domain cases are excluded and counted)."),
+ "C12": dict(level="exploration", design="5 C12",
+   technique="property-based testing: generated LF/CRLF-mixed projects, model-free byte-scan validity predicate over every generated file",
+   text="Generated-input search over projects that mix LF and CRLF independently in six places; every output and temp file of a successful build is byte-scanned against the ending of its source's first line. Linux CI never runs CRLF sources; this explores tens of thousands of mixed cases per run. Exploration only: no claim beyond the cases generated.",
+   note="Temp files are attributed to sources by a syntactic scan; domain: CR only immediately before LF (other inputs are excluded and counted)."),
+ "C13": dict(level="exploration", design="5 C13",
+   technique="property-based testing: metamorphic pair relation (option on vs off) over generated sources classified by final state",
+   text="Each generated project is built twice in the same root, with the trailing-newline option on and off; verdicts, file sets, temp files and outputs are related pairwise (equal or one final line ending apart; exact form when the source ends in an ordinary line). Covers every final-state class x LF/CRLF that one fixture cannot.",
+   note="Sources that include another source's output are skipped for the byte relation (the included file itself legitimately changes); final-state classes come from the reference grammar."),
+ "C14": dict(level="exploration", design="5 C14",
+   technique="bounded-exhaustive differential testing of the tag store against a list model (4 fresh stores per scenario) + generated whole files against the reference model, built twice",
+   text="All tag-name sequences of size <=3 over a two-letter alphabet (equal, prefix-related, overlapping), x stored contents x every target line up to length 6/7 are driven through the real TagState and a list-based model; every return value and string is compared and each scenario repeated on fresh hash maps. Tag-heavy generated files cover create/store/use orders and the documented error orders end to end. Exhaustive within the stated bound, exploration beyond.",
+   note="TagState is reached through the add-only verif re-export; the list model is harness/src/model/tags.rs."),
+ "C15": dict(level="exploration", design="5 C15",
+   technique="bounded-exhaustive differential testing of detect_from/add_line against a grammar transcribed from the property statement, plus proptest-generated longer lines",
+   text="Every line of <=4/5 tokens over the property's token alphabet and every (structured directive line, candidate continuation of <=3/4 tokens) pair is classified by the real code and by the reference grammar; results (directive or text, indent, prefix, kind, arguments, continue or end) must coincide. Exhaustive within the bound; longer lines are sampled.",
+   note="Pairs where 'as many spaces as the prefix is long' is ambiguous (non-ASCII prefix: bytes vs characters) are excluded and counted."),
+ "C16": dict(level="exploration", design="5 C16",
+   technique="property-based testing: two round-trip oracles built by construction (identity on directive-free text; write-escape of arbitrary line sequences with stored tags)",
+   text="Texts over an alphabet of directive and tag look-alikes must pass through unchanged when no line has the directive shape, and any line sequence escaped with one write directive (generated indent/prefix, stored tags whose names occur in the text) must be reproduced line for line, unexecuted and unsubstituted. Expected bytes come from the construction, not from the model.",
+   note="Escape domain as in the statement: first line without leading blank, no trailing blanks."),
 }
 
 NOT_YET = "check not built yet in this revision of /verif (see DESIGN.md section 5 for the planned generated-input check); not claimed until its machinery exists"
